@@ -52,6 +52,8 @@ type c38Case struct {
 	// (same server, hook and token key) whose call-state cache never saw the
 	// /init: the documented load-balanced deployment.
 	ColdConts bool `json:"cold_conts,omitempty"`
+	// Overlap replaces the history by a harness-scheduled set of overlapping HTTP calls.
+	Overlap *c38Overlap `json:"overlap,omitempty"`
 }
 
 // ---- reference: which claim names are sensitive (from the RedactClaims doc
@@ -171,6 +173,11 @@ func genC38(t *rapid.T) c38Case {
 	c.Debug = rapid.Bool().Draw(t, "debug")
 	if rapid.Bool().Draw(t, "version") {
 		c.Version = "1.2.3"
+	}
+	if rapid.IntRange(0, 7).Draw(t, "overlap?") == 0 {
+		c.Transport = "http"
+		c.Overlap = genC38Overlap(t)
+		return c
 	}
 	kinds := []string{"none", "valid", "valid", "dashed", "upper", "trace_only", "span_only", "short", "long", "panic"}
 	c.Trace.Kind = kinds[rapid.IntRange(0, len(kinds)-1).Draw(t, "tracekind")]
@@ -525,6 +532,9 @@ func dispatchedOnPipe(c lib.CallSpec) bool { return c.Kind == "unary" || c.Kind 
 
 func runC38(c c38Case) (out lib.Outcome) {
 	lib.ResetEvents()
+	if c.Overlap != nil {
+		return runC38Overlap(c)
+	}
 	installTraceProvider(c.Trace)
 	installRedactor(c.Redactor)
 	defer vgirpc.SetTraceContextProvider(nil)
@@ -724,6 +734,7 @@ func runC38(c c38Case) (out lib.Outcome) {
 var propC38 = lib.Prop[c38Case]{
 	ID: "C38",
 	Rule: "histories on a scripted service with an AccessLogHook installed: pipe sessions of 1-8 calls (every call kind of the C02 generator, unique request ids) or HTTP histories of 1-5 calls " +
+		"(or, in an eighth of the cases, 2-6 HTTP unary calls with payloads of repeating, shrinking and growing sizes of which some are held inside their handler by the harness while the later ones start, finish or are held too, released in a drawn order: each call's record must describe that call) " +
 		"(unary incl. bad parameter batches; producer streams with a batch limit of 1-3 followed to the end; exchange streams of 1-3 turns, optionally cancelled; response compression (zstd or gzip, via X-VGI-Accept-Encoding or Accept-Encoding) asked for on 5/7 of the calls, in a third of the cases every continuation is served by a second HttpServer instance with a cold call-state cache, " +
 		"zstd request bodies on 1/4), debug on/off, server_version set/unset, a trace-context provider (none, valid, dashed, upper-case, one half, short, long, panicking), an authenticated caller with 0-6 claims " +
 		"(sensitive, benign and undecided names; scalar, list and nested values) and a redactor (default, NoClaimRedaction, custom, custom returning nothing, panicking). " +
@@ -733,7 +744,7 @@ var propC38 = lib.Prop[c38Case]{
 		"Non-trivial: a stream with >=2 continuations, or a compressed response whose decoded body is >= 1 KiB.",
 	Gen: genC38,
 	Run: runC38,
-	Essential: []string{"transport:pipe", "transport:http", "debug:true", "debug:false", "stream-2cont", "compressed-1k", "trace:valid", "trace:panic", "trace:dashed",
+	Essential: []string{"transport:pipe", "transport:http", "overlap", "overlap:several-held", "debug:true", "debug:false", "stream-2cont", "compressed-1k", "trace:valid", "trace:panic", "trace:dashed",
 		"redactor:panic", "redactor:none", "redactor:custom", "stream-2cont-cold", "coding:zstd", "coding:gzip", "claims:sensitive", "claims:benign", "claims:nested", "request-compressed", "call:exchange", "call:producer"},
 	EssentialMin: 200,
 	Assumptions: []string{
